@@ -612,6 +612,14 @@ class Gen:
                     words.append(kw.pop(0))
         for w in words:
             e.w(w); e.sp()
+            if w.startswith('@') and rng.random() < 0.25:
+                # an annotation WITH arguments next to the marker ones: it is no marker annotation (not among the
+                # annotation attributes), but the expressions in its arguments are ordinary expressions of the file
+                e.w(rng.choice(['@Size', '@RequestMapping', '@Max'])); e.tight(); e.w('(')
+                if rng.random() < 0.5:
+                    e.w('max'); e.osp(); e.w('='); e.osp()
+                self.binary(2)
+                e.tight(); e.w(')'); e.sp()
         return vis, annots
 
     def method(self):
